@@ -725,6 +725,15 @@ def check_guard(ctx, crate, E, g):
             fa, ok_b, err_b, map_calls, stores = r_map.mapall(sub, Em, crate)
             sub.obs = []
             r_map.maplen(sub, Em, crate, fa, ok_b, map_calls)
+        elif g["rule"] == "VERIFYMAP":
+            ok1 = verify_ids_guard(crate, E)
+            ok2, txt, _ = verify_before_map(crate, E)
+            if not ok1:
+                return False, "build() no longer rejects lexicon/unknown ids outside the connector"
+            if not ok2:
+                return False, txt
+            ok3, txt3 = check_guard(ctx, crate, E, {"kind": "rule", "rule": "MAPLEN"})
+            return ok3, txt + "; " + txt3
         elif g["rule"] == "VERIFY-IDS":
             ok = verify_ids_guard(crate, E)
             return ok, "build() rejects lexicon/unknown ids outside the connector before returning a dictionary"
@@ -884,6 +893,71 @@ def verify_ids_guard(crate, E):
     return n == 2
 
 
+def verify_before_map(crate, E):
+    """VERIFYMAP: ConnIdMapper::left/right index the mapping table with ids taken from a lexicon
+    or unknown-word component. Each call of Lexicon/UnkHandler::map_connection_ids must act on
+    (a) a component of an already constructed Dictionary (ids verified by build(), rule
+    VERIFY-IDS), or (b) a component created in the same function that has passed verify() on
+    every path to the call, the failing edge of verify() leading to Err only.
+    Returns (ok, text, instances)."""
+    inst = []
+    bad = []
+    for p, f in sorted(crate.fns.items()):
+        if not f.body or f.krate != "vibrato":
+            continue
+        fa = E.fa(p)
+        for b, t in fa.calls():
+            c = callee_of(t)
+            if c is None:
+                continue
+            rp = strip_generics((c.get("resolved") or c)["path"])
+            if not rp.endswith(("lexicon::Lexicon::map_connection_ids",
+                                "unknown::UnkHandler::map_connection_ids")):
+                continue
+            ap = E.ap_operand(fa, t["args"][0])
+            where = "%s -> %s" % (p.split("::")[-1], "::".join(rp.split("::")[-2:]))
+            if ap is None:
+                bad.append("%s: receiver not resolved" % where)
+                continue
+            if ap.root[0] == "arg":
+                inst.append("%s on %r (component of a constructed dictionary)" % (where, ap))
+                continue
+            # freshly created component: a dominating verify() on the same root
+            ok_b, err_b, _ = result_exits(fa)
+            found = False
+            for vb, vt in fa.calls():
+                vc = callee_of(vt)
+                if vc is None or short(strip_generics((vc.get("resolved") or vc)["path"])) != "verify":
+                    continue
+                vap = E.ap_operand(fa, vt["args"][0])
+                if vap is None or vap.root != ap.root:
+                    continue
+                if not fa.dominates(vb, b):
+                    continue
+                sw = vt.get("t")
+                st = fa.term(sw) if sw is not None else None
+                if st is None or st["k"] != "switch":
+                    continue
+                r = root_of(fa, st["op"])
+                neg = r[0] == "rv" and r[1]["k"] == "unop" and r[1]["op"] == "Not"
+                f_t, t_t = bool_switch_targets(st)
+                failing = t_t if neg else f_t
+                reach_fail = fa.reachable(failing)
+                if (reach_fail & ok_b) or b in reach_fail:
+                    continue
+                found = True
+            if found:
+                inst.append("%s on a new component after verify()" % where)
+            else:
+                bad.append("%s maps the ids of a component created in this function before "
+                           "verify() has accepted them" % where)
+    if bad:
+        return False, "; ".join(bad), inst
+    if len(inst) < 3:
+        return False, "only %d map_connection_ids call sites found (expected >= 3)" % len(inst), inst
+    return True, "every mapped component is verified first (%s)" % "; ".join(inst), inst
+
+
 def run(ctx):
     crate = ctx.facts("A").lib
     E = Effects(crate)
@@ -934,6 +1008,11 @@ def run(ctx):
                "structural argument (constant operands, dominating length guard, guarded "
                "subtraction, memory-bounded arithmetic) nor justified in spec/panic_table.json"
                % (s.desc, s.kind, s.fn, chain), {"reach": chain})
+    vok, vtxt, vinst = verify_before_map(crate, E)
+    ctx.ob("VERIFYMAP", "ids-verified-before-translation", vok,
+           "vibrato/src/dictionary.rs (callers of map_connection_ids)",
+           vtxt if vok else "the id mapping table is indexed with unverified ids: " + vtxt)
+    ctx.count("VERIFYMAP", "map_connection_ids call sites", len(vinst))
     for k, v in sorted(tags.items()):
         ctx.count("PANIC", "discharged by " + k, v)
     stale = sorted(set(entries) - used)
